@@ -38,6 +38,8 @@ def build_doc(r, pols, pad_to=None):
 
 
 LEX = ['permit', 'forbid', 'when', 'unless', 'principal', 'action', 'resource', 'context', 'true', 'false', 'if', 'then', 'else', 'in', 'like', 'has', 'is',
+       # identifiers that END in (or are made of) reserved words: wherever a chunk boundary falls, the token is what the whole text says
+       'admin', 'within', 'login', 'origin', 'skin', 'iffy', 'elsewhen', 'thenelse', 'ifthenelse', 'truefalse', 'notin', 'principalin', 'likehas', 'hasis', 'isin',
        '__cedar', '_a1', 'A', 'z9_', '0', '7', '123456789012345678901234567890', '==', '!=', '<=', '>=', '<', '>', '&&', '||', '!', '::', ':', '.', ',', ';',
        '(', ')', '{', '}', '[', ']', '+', '-', '*', '@', '/', '=', '|', '&', '%', '#', '~', '?', '"a"', '""', '"\\n\\t\\\\\\0\\\'\\"\\*"', '"\\x41\\x7f"', '"\\u{e9}"',
        '"\\u{1F600}"', '"\\u{0000061}"', '"\\u{}"', '"\\x4"', '"\\q"', '"\\u{110000}"', '"é日\U0001f600"', '"unterminated', '"a\nb"', '// c\n', '//\n', '/**/',
